@@ -16,7 +16,7 @@ RULE = ("batches of calls of edzed.utils.convert / time_period / timestr / times
         "of units rendered in the traditional and the ISO 8601 format with random numbers (leading zeros, zero "
         "values), random case, inner/outer whitespace from the six ASCII whitespace characters, decimal "
         "point/comma in the smallest present unit, optional final 's', optional 0Y/0M and bare 'T'; (d) a "
-        "grammar-based malformed stream: a valid rendering mutated by one of 24 rules (blank, non-zero "
+        "grammar-based malformed stream: a valid rendering mutated by one of 25 rules (blank, non-zero "
         "years/months, fraction in a larger unit, repeated / swapped / misordered units, stray and look-alike "
         "characters, lower-case or spaced ISO, time units without T, broken fractions, signs, exponents); "
         "(e) time_period over None, bool, int, float, str and non-duration types. A case is distinct by its "
@@ -127,7 +127,7 @@ STRAY = ['x', 'e', 'E', '-', '+', '_', ':', '/', ';', 'T', 'P', 'W', 'y', 'w', '
 
 def malformed(rng):
     """(text, rule name): one mutation of a valid rendering; most results are invalid, the oracle decides"""
-    rule = rng.randrange(24)
+    rule = rng.randrange(25)
     iso = rng.random() < 0.5
     if rule == 0:
         return rng.choice(['', ' ', '\t', '  \n', '\x0b\x0c', 'P', 'PT', ' P ', ' PT\n', 'T']), 'blank'
@@ -220,6 +220,22 @@ def malformed(rng):
         return rng.choice(['1.5h0m', '1,5d0s', '2.5m0', 'PT1.5H0M', 'P1.5DT0S', 'P0.5DT0H']), 'fraction-before-zero-unit'
     if rule == 22:      # zero years with fraction / zero fraction (accepted by the code: value 0)
         return rng.choice(['P0.0Y', 'P0,00M', 'P0Y0M', 'P0.0YT1S', 'P0.5Y', 'P0Y0.5M', 'P0M0.0D']), 'calendar-zero-forms'
+    if rule == 24:      # non-ASCII look-alikes (what the patterns would accept without re.ASCII)
+        text, _, _ = render(rng, iso)
+        kind = rng.randrange(4)
+        zeros = rng.choice(['\uff10', '\u0660', '\u0966', '\u06f0'])      # fullwidth, Arabic-Indic, Devanagari, ext. Arabic
+        if kind == 0:       # one digit replaced by a non-ASCII decimal digit
+            pos = [i for i, c in enumerate(text) if c in '0123456789']
+            i = rng.choice(pos)
+            return text[:i] + chr(ord(zeros) + int(text[i])) + text[i + 1:], 'non-ascii-digit'
+        if kind == 1:       # all digits
+            return ''.join(chr(ord(zeros) + int(c)) if c in '0123456789' else c for c in text), 'non-ascii-digit'
+        if kind == 2:       # the long s for the seconds' unit
+            n = rng.randint(0, 99)
+            return rng.choice([f'{n}\u017f', f'1m{n}\u017f', f'{n} \u017f ', f'2h {n}.5\u017f']), 'non-ascii-unit'
+        sp = rng.choice(['\xa0', '\u2003', '\x1c', '\x85', '\u3000'])      # white space outside ASCII
+        core = text.strip(WS)
+        return rng.choice([sp + core, core + sp, core.replace('d', sp + 'd', 1) if not iso else sp + core]), 'non-ascii-space'
     # long digit strings / long whitespace (still valid or invalid by one char)
     text, _, _ = render(rng, iso)
     return text + rng.choice(['\n', '\n\n', '\x00', ' .', ' 0']), 'trailing'
